@@ -154,7 +154,7 @@ def check_rel_interval(spec, ctx):
     for a, b in pairs:
         # the same window is asked on ONE object with the strands in both orders (+,-,+ or -,+,-), so that an answer that
         # depended on the previous request for that window would show
-        order = spec.get("rel_strands") or (["+", "-", "+"] if (a + b) % 2 == 0 else ["-", "+", "-"])
+        order = spec.get("rel_strands") or (["+", "-", "+"] if (a + b) % 2 == 0 else ["-", "+", "-"]) + (["."] if (2 * a + b) % 3 == 0 or (a, b) == (0, n) else [])
         for rs in order:
             try:
                 res = loc.relative_interval_to_parent_location(a, b, STRAND[rs])
@@ -298,6 +298,17 @@ def check_rel_location(spec, ctx):
         pass
     point_maps_intact(ctx, loc, pos, l_overlap, "rel_location:argument_of_swapped_call", L["strand"])
     point_maps_intact(ctx, q, qpos, q_overlap, "rel_location:receiver_of_swapped_call", Q["strand"])
+    # ... and after the two locations took part in set algebra together (the maps belong to the location, whatever else it was
+    # an operand of); the results of that algebra are C02's, here only the operands' own maps are asked again
+    for name in ("union", "intersection", "minus", "union_preserve_overlaps", "has_overlap", "contains"):
+        for x, y in ((loc, q), (q, loc)):
+            try:
+                getattr(x, name)(y)
+            except Exception:
+                pass
+    ctx.label("maps_asked_after_set_algebra")
+    point_maps_intact(ctx, loc, pos, l_overlap, "rel_location:operand_of_set_algebra", L["strand"])
+    point_maps_intact(ctx, q, qpos, q_overlap, "rel_location:other_operand_of_set_algebra", Q["strand"])
 
 
 # ------------------------------------------------------------------------------------ interval wrappers
